@@ -177,8 +177,64 @@ def run(ck, only=None):
     ck.extra["option_combinations"] = len(variants)
     if not only or only.get("behaviour"):
         behaviour(ck, cases)
+    if not only or only.get("cxx"):
+        cxx_rules(ck)
     ck.assume("the specification is deliberately three-valued: anything the property does not constrain (non-plain attributes, mixed "
               "members, trait dependencies such as Eq without PartialEq) is FREE; enum members are integers under the default enum style")
+
+
+CXX_RULES_HPP = r"""
+template <typename T> struct W { T v; float w; };
+struct HW { W<int> a; int k; };
+struct HW2 { HW h[2]; };
+typedef W<char> WC;
+struct HWC { WC c; };
+struct FB { double d; };
+struct FM : FB { int m; };
+struct FL : FM { char c; };
+struct Dt { ~Dt(); int x; };
+struct HoldsDt { Dt d; int y; };
+struct ArrDt { Dt d[2]; };
+struct Vt { virtual void f(); int x; };
+struct HoldsVt { Vt v; };
+struct DerVt : Vt { int z; };
+struct Ref { int &r; };
+struct PlainBase { int a; short b; };
+struct PlainDer : PlainBase { int c; };
+struct PlainHolds { PlainDer d; PlainBase arr[3]; };
+template <typename T> struct Box { T t; };
+struct BoxInt { Box<int> b; Box<Box<short> > bb; };
+struct BoxFloat { Box<float> b; };
+"""
+# (type, trait) pairs that the rules forbid / require with every derive option on
+CXX_MUST_NOT = [("HW", "Eq"), ("HW", "Ord"), ("HW", "Hash"), ("HW2", "Eq"), ("HW2", "Hash"), ("HWC", "Eq"), ("HWC", "Ord"),
+                ("FM", "Eq"), ("FM", "Ord"), ("FM", "Hash"), ("FL", "Eq"), ("FL", "Ord"), ("FL", "Hash"),
+                ("Dt", "Copy"), ("HoldsDt", "Copy"), ("ArrDt", "Copy"), ("Vt", "Default"), ("HoldsVt", "Default"), ("DerVt", "Default"),
+                ("Ref", "Default"), ("BoxFloat", "Eq"), ("BoxFloat", "Hash"), ("BoxFloat", "Ord")]
+CXX_MUST_HAVE = [(t, tr) for t in ("PlainBase", "PlainDer", "PlainHolds", "BoxInt") for tr in TRAITS] + \
+                [(t, tr) for t in ("FB", "FM", "FL", "HW", "BoxFloat") for tr in ("Copy", "Clone", "Debug", "Default", "PartialEq", "PartialOrd")]
+
+
+def cxx_rules(ck):
+    wd = os.path.join(ck.wd, "cxx")
+    os.makedirs(wd, exist_ok=True)
+    hp = os.path.join(wd, "rules.hpp")
+    open(hp, "w").write(CXX_RULES_HPP)
+    allon = [f for (_, f, _, d) in OPTS if not d]
+    r = common.run_jobs([{"id": "x", "args": [hp, "--formatter", "none", "--no-layout-tests"] + allon + ["--", "-x", "c++", "-std=c++14"], "inventory": True, "text": False}], wd)["x"]
+    common.guard(r["status"] == "ok", "C08 C++ rule header failed to generate: " + str(r)[:200])
+    dv, impls = derive_view(r["inventory"])
+    for t, tr in CXX_MUST_NOT:
+        ck.count()
+        ck.nontriv(("cxx", t, tr))
+        # a hand-written Default (all-zero object) is what the rules prescribe where the derive is impossible
+        if t in dv and (tr in dv[t][0] or (tr != "Default" and tr in impls.get(t, set()))):
+            ck.violation(f"cxx-rules type={t} trait={tr} derived-against-rule", {"cxx": True, "why": f"{tr} is derived on {t} although a constituent cannot support it (derives={dv[t][0]})"})
+    for t, tr in CXX_MUST_HAVE:
+        ck.count()
+        ck.nontriv(("cxx", t, tr))
+        if t in dv and tr not in dv[t][0] and tr not in impls.get(t, set()):
+            ck.violation(f"cxx-rules type={t} trait={tr} withheld", {"cxx": True, "why": f"{tr} is withheld from {t} although every constituent supports it (derives={dv[t][0]})"})
 
 
 BEHAVIOUR_RS = r'''
